@@ -93,6 +93,8 @@ VARIANT_FLAGS = {
     'o3': ['-O3', '-DNDEBUG', '-frounding-math', '-ffp-contract=off'],    # release-style: asserts compiled out
     'san': ['-O1', '-g', '-fno-omit-frame-pointer', '-fsanitize=address,undefined',
             '-fsanitize-recover=undefined', '-frounding-math', '-ffp-contract=off', '-DVK_SAN=1'],
+    # the flags most users build with: no -frounding-math / -ffp-contract=off; the harness then stays in round-to-nearest
+    'dfp': ['-O2', '-DVK_DEFAULT_FP=1'],
     'cov': ['--coverage', '-O0', '-frounding-math', '-ffp-contract=off'],
 }
 
